@@ -62,8 +62,9 @@ class Routine:
 
 
 class Model:
-    def __init__(self, code, listing, n_globals, stmt_starts=None):
+    def __init__(self, code, listing, n_globals, stmt_starts=None, max_gosub=None):
         self.code = code
+        self.max_gosub = MAX_GOSUB if max_gosub is None else max_gosub
         self.dec = isa.Decoded(code)
         self.ins = self.dec.instrs
         self.n = len(code)
@@ -135,20 +136,13 @@ class Model:
     def param_kinds(self, r):
         out = []
         lay = self.lay
-        acc = 0
-        for typ, name in r.entries:
-            if acc >= r.p:
-                break
+        for typ, name in r.entries[:r.p]:
             base, dims = typ
             k = lay.elem(base)
             k = k if isinstance(k, str) else 'rec'
             if dims is not None:
                 k = 'arr' + k
             out.append(k)
-            try:
-                acc += lay.size(typ)
-            except LayoutError:
-                break
         return ','.join(out)
 
     def routine_at(self, pc):
@@ -166,7 +160,7 @@ class Model:
         """-> (actions, violations).  actions:
         ('next', pc, stack) | ('enter', callee, ret_pc, rest_stack) |
         ('exit', 'ret' | ('retv', T)) | ('halt',) | ('end',) |
-        ('resume',)"""
+        ('resume',) | ('bound',) (GOSUB nesting bound: path cut)"""
         ent = self.ins.get(pc)
         if ent is None:
             return [], [V(kind='not-instruction-start', pc=pc, op='?',
@@ -519,8 +513,9 @@ class Model:
                     if jump_target(t, 'gosub'):
                         if shape(st):
                             bad('stack-at-boundary', 'GOSUB with a non-empty expression stack')
-                        if gdepth(st) >= MAX_GOSUB:
+                        if gdepth(st) >= self.max_gosub:
                             self.stats['gosub_bound_hits'] += 1
+                            acts.append(('bound',))
                         else:
                             st.append(('ra', nxt))
                             go(t)
@@ -545,7 +540,8 @@ class Model:
                         msg = self._arg_ok(t, pt)
                         if msg:
                             bad('call-args', f'argument {i + 1}: {msg}',
-                                params=self.param_kinds(callee))
+                                params=self.param_kinds(callee),
+                                arg=t[1][0] if ty(t) == '@' else ty(t))
                 acts.append(('enter', pc, ret, tuple(st)))
             elif op == 'ret':
                 if tuple(st) != ('RA',):
@@ -767,41 +763,67 @@ class Model:
             push(0, ())
         for r in self.routines:
             push(r.start + self.ins[r.start][2], ('RA',))
+        handlers = []
         for pc in self.dec.starts:
             op, args, _ = self.ins[pc]
             if op == 'errhand' and args[0] not in (0, 1) and args[0] in self.ins \
-                    and args[0] not in self.frame_of:
-                self.stats['handler_roots'] += 1
-                push(args[0], ('RA',))
-        while work:
-            if len(visited) > max_states:
-                self.harness.append('state bound exceeded')
-                return
-            pc, stack = work.pop()
-            self.ops_seen.add(self.ins[pc][0] if pc in self.ins else '?')
-            acts, viol = self.step(pc, stack)
-            for v in viol:
-                report(v)
-            r = self.routine_at(pc)
-            for a in acts:
-                self.transitions += 1
-                if a[0] == 'next':
-                    push(a[1], a[2])
-                elif a[0] == 'enter':
-                    callee, ret, rest = a[1], a[2], a[3]
-                    cont = (ret, rest)
-                    if cont not in callers[callee]:
-                        callers[callee].append(cont)
-                        for ex in exits[callee]:
-                            self._return_to(cont, ex, push, report)
-                elif a[0] == 'exit':
-                    if r is None:
+                    and args[0] not in self.frame_of and args[0] not in handlers:
+                handlers.append(args[0])
+        self.stats['handler_roots'] += len(handlers)
+        hroots = set()
+        while True:
+            while work:
+                if len(visited) > max_states:
+                    self.harness.append('state bound exceeded')
+                    return
+                pc, stack = work.pop()
+                self.ops_seen.add(self.ins[pc][0] if pc in self.ins else '?')
+                acts, viol = self.step(pc, stack)
+                for v in viol:
+                    report(v)
+                r = self.routine_at(pc)
+                for a in acts:
+                    self.transitions += 1
+                    if a[0] == 'next':
+                        push(a[1], a[2])
+                    elif a[0] == 'enter':
+                        callee, ret, rest = a[1], a[2], a[3]
+                        cont = (ret, rest)
+                        if cont not in callers[callee]:
+                            callers[callee].append(cont)
+                            for ex in exits[callee]:
+                                self._return_to(cont, ex, push, report)
+                    elif a[0] == 'exit':
+                        if r is None:
+                            continue
+                        ex = a[1]
+                        if ex not in exits[r.start]:
+                            exits[r.start].add(ex)
+                            for cont in callers[r.start]:
+                                self._return_to(cont, ex, push, report)
+            # error-handler entries: an error may be dispatched at any
+            # instruction of the handler's own routine, i.e. under every
+            # control stack (own return address + active GOSUBs) reached
+            # there; the expression stack is taken as empty (what a dispatch
+            # in the middle of an expression leaves behind is judged by the
+            # concrete monitor only)
+            if not handlers:
+                break
+            new = False
+            for h in handlers:
+                hr = self.routine_at(h)
+                if hr is None:
+                    continue
+                for (pc, stack) in list(visited):
+                    if not (hr.start < pc < hr.end):
                         continue
-                    ex = a[1]
-                    if ex not in exits[r.start]:
-                        exits[r.start].add(ex)
-                        for cont in callers[r.start]:
-                            self._return_to(cont, ex, push, report)
+                    cs = tuple(t for t in stack if ty(t) in ('RA', 'ra'))
+                    if cs and (h, cs) not in hroots:
+                        hroots.add((h, cs))
+                        push(h, cs)
+                        new = True
+            if not new and not work:
+                break
         self.exits = exits
 
     def _return_to(self, cont, ex, push, report):
